@@ -313,6 +313,78 @@ fn clients_scenario(k: usize, rounds: usize, policy: u8) -> Verdict {
     e3::finish(v)
 }
 
+/// Two live connections announce the same identity (a client restarted while the REP still holds its
+/// idle old connection): the reply to a request must go to the connection the request came from.
+fn rep_same_identity_scenario(first_exchanges: usize, policy: u8) -> Verdict {
+    world::reset(world::WorldCfg { nested_env: true, yields: true, select: false, policy, coop: false });
+    let c1 = e3::raw_conn("old");
+    let c2 = e3::raw_conn("new");
+    c1.send(&rc::handshake("REQ", Some(b"worker-7")));
+    for j in 0..first_exchanges {
+        c1.send(&rc::encode_message(&[vec![], format!("old-q{}", j).into_bytes()]));
+    }
+    // the second connection starts its handshake only after the first one is registered and served
+    // (otherwise "which one is the newer connection" is up to the scheduler)
+    c2.gate("old-attached");
+    c2.gate("old-served");
+    c2.send(&rc::handshake("REQ", Some(b"worker-7")));
+    c2.send(&rc::encode_message(&[vec![], b"new-q0".to_vec()]));
+    let sock = AnySocket::new(Ty::Rep, None);
+    let (be, be2) = (sock.backend(), sock.backend());
+    world::spawn_app("attach-old", async move {
+        let _ = e3::attach_raw(be, c1).await;
+        world::set_cond("old-attached");
+    });
+    world::spawn_app("attach-new", async move {
+        let _ = e3::attach_raw(be2, c2).await;
+        world::set_cond("new-attached");
+    });
+    let viol = std::rc::Rc::new(std::cell::RefCell::new(Vec::<(String, String)>::new()));
+    let viol2 = viol.clone();
+    world::spawn_app("server", async move {
+        let mut sock = sock;
+        for j in 0..first_exchanges {
+            let r = world::until_idle(sock.recv()).await;
+            if !matches!(&r, Some(Ok(m)) if frames_of(m) == vec![format!("old-q{}", j).into_bytes()]) {
+                viol2.borrow_mut().push(("same-identity/first-client".into(), format!("request {} of the first client came out as {:?}", j, r.as_ref().map(e3::show_result))));
+                return;
+            }
+            let _ = sock.send(msg(&[format!("old-a{}", j).into_bytes()])).await;
+        }
+        world::set_cond("old-served");
+        world::wait_cond("new-attached").await;
+        let (b1, b2) = (c1.tap_messages().len(), c2.tap_messages().len());
+        let r = world::until_idle(sock.recv()).await;
+        if !matches!(&r, Some(Ok(m)) if frames_of(m) == vec![b"new-q0".to_vec()]) {
+            viol2.borrow_mut().push(("same-identity/request-of-second-connection-not-delivered".into(), format!("recv returned {:?}", r.as_ref().map(e3::show_result))));
+            return;
+        }
+        let s = sock.send(msg(&[b"new-a0".to_vec()])).await;
+        let (t1, t2) = (c1.tap_messages(), c2.tap_messages());
+        let on_new = t2.len() == b2 + 1 && t2.last() == Some(&vec![vec![], b"new-a0".to_vec()]);
+        if s.is_err() || !on_new || t1.len() != b1 {
+            viol2.borrow_mut().push((
+                "same-identity/reply-not-on-the-requesting-connection".into(),
+                format!("two live connections announce identity worker-7; the request came in on the second one; send -> {}; the reply is on the old connection: {}, on the new connection: {}", e3::ok_or_err(&s), t1.len() != b1, on_new),
+            ));
+        }
+        world::wait_cond("never").await;
+        drop(sock);
+    });
+    let end = world::run(e3::HORIZON);
+    let mut v = Verdict::default();
+    v.truncated = end != world::RunEnd::Quiescent;
+    let what = format!("REP with two connections announcing the same identity ({} exchanges on the first before the second connects, policy {})", first_exchanges, policy);
+    for p in world::panics() {
+        v.violate("panic", format!("{}: {}", what, p));
+    }
+    for (c, m) in viol.borrow().iter() {
+        v.violate(c.clone(), format!("{}: {}", what, m));
+    }
+    v.outcome_hash = rc::fnv(e3::canon_log().join("|").as_bytes());
+    e3::finish(v)
+}
+
 fn build(p: &Value) -> Option<zvcore::explore::Scenario> {
     let ops = |v: &Value| -> Vec<bool> { v.as_str().unwrap_or("").chars().map(|c| c == 's').collect() };
     match p["case"].as_str()? {
@@ -326,6 +398,10 @@ fn build(p: &Value) -> Option<zvcore::explore::Scenario> {
             let o = ops(&p["ops"]);
             let n = p["peers"].as_u64()? as usize;
             Some(std::sync::Arc::new(move || rep_sequence(&o, n)))
+        }
+        "rep-same-identity" => {
+            let (n, pol) = (p["first_exchanges"].as_u64()? as usize, p["policy"].as_u64()? as u8);
+            Some(std::sync::Arc::new(move || rep_same_identity_scenario(n, pol)))
         }
         "clients" => {
             let k = p["k"].as_u64()? as usize;
@@ -375,6 +451,11 @@ pub fn run(tier: Tier, replay: Option<String>) -> i32 {
             jobs.push(e3::job(format!("C08/clients/2x3/policy{}", policy), json!({"case":"clients","k":2,"rounds":3,"policy":policy}), 3, cap, move || clients_scenario(2, 3, policy)));
         }
     }
+    for first_exchanges in 0..=1usize {
+        for policy in 0..3u8 {
+            jobs.push(e3::job(format!("C08/rep-same-identity/{}/policy{}", first_exchanges, policy), json!({"case":"rep-same-identity","first_exchanges":first_exchanges,"policy":policy}), tier.pick(2, 3), 300_000, move || rep_same_identity_scenario(first_exchanges, policy)));
+        }
+    }
     e3::run_jobs_into(&mut ck, jobs, false);
     let ex = ck.coverage.get("e3_executions").and_then(|v| v.as_u64()).unwrap_or(0);
     ck.cov("states", n_seq as u64 + ck.coverage.get("e3_distinct_outcomes").and_then(|v| v.as_u64()).unwrap_or(0));
@@ -382,7 +463,7 @@ pub fn run(tier: Tier, replay: Option<String>) -> i32 {
     ck.cov("traces_validated_against_impl", ex);
     ck.cov("call_sequences", n_seq as u64);
     ck.cov("exhaustive", ck.coverage.get("e3_scenarios_capped").and_then(|v| v.as_u64()) == Some(0));
-    ck.cov("explanation", format!("(a) every call sequence over {{send, recv}} of length <= 6 on a real REQ with 0/1/2 echo peers (also with the first of two peers' connections failing every write: the failed send must leave the socket idle and the next send go to the healthy peer) and on a real REP with requests queued by 1/2 peers ({} sequences), each step compared with a 2-state reference machine: out-of-turn call fails, ReturnToSender carries the argument frame for frame, the wires are untouched by a failed call, later behaviour shows the state unchanged, a reply lands on exactly the requester's connection; (b) {} real REQ sockets x {} rounds against one real REP over in-memory pipes under every schedule with <= {} deviations: each client receives exactly the echoes of its own requests, in order.", n_seq, k, rounds, bound));
+    ck.cov("explanation", format!("(a) every call sequence over {{send, recv}} of length <= 6 on a real REQ with 0/1/2 echo peers (also with the first of two peers' connections failing every write: the failed send must leave the socket idle and the next send go to the healthy peer) and on a real REP with requests queued by 1/2 peers ({} sequences), each step compared with a 2-state reference machine: out-of-turn call fails, ReturnToSender carries the argument frame for frame, the wires are untouched by a failed call, later behaviour shows the state unchanged, a reply lands on exactly the requester's connection; (b) {} real REQ sockets x {} rounds against one real REP over in-memory pipes under every schedule with <= {} deviations: each client receives exactly the echoes of its own requests, in order. (c) two live connections announcing the same identity to one REP (a restarted client): the reply must land on the connection the request came from.", n_seq, k, rounds, bound));
     ck.assume("echo peers answer instantly (harness state machines); REP.recv in the have-request state is allowed by the statement (only replies are gated)");
     ck.conclude()
 }
